@@ -1,7 +1,7 @@
 #!/venv/bin/python
 """Create one scratch worktree of /repo per property plus the prompt given to a fresh sub-agent (property text only).
 
-usage: tools/mk_mutant_prompts.py <dir outside /repo and /verif, e.g. /tmp/wt4> [hint-set 0|1|2|3]
+usage: tools/mk_mutant_prompts.py <dir outside /repo and /verif, e.g. /tmp/wt4> [hint-set 0|1|2|3|4]
 The sub-agent gets: the property's title/statement/quantifier and its own worktree - nothing from /verif.
 Afterwards: tools/seed_mutant.py Cxx a|b <dir>/Cxx/_out <store letter>, then `git -C /repo worktree remove --force <dir>/Cxx`.
 """
@@ -69,7 +69,30 @@ HINTS = ['''       - a code path that only ONE entry point takes (closest, filte
        specifications that the code implements in one particular place and that can be bent slightly (which
        elements count, which attribute decides, which ancestor stops a walk, which comparison is case-folded, what
        happens at exactly zero / one / the last item), such that every call path stays self-consistent and only
-       the *meaning* is off for a narrow class of documents.''']
+       the *meaning* is off for a narrow class of documents.''',
+         '''       ... and assume that it ALSO already varies every entry point and wrapper, trees from several builders
+         (grafted, detached, twins, mixed-case names, odd attribute value types, iframes, XHTML-as-XML), namespace
+         maps and custom-selector tables of every shape, respellings of every token, huge numbers, non-ASCII
+         digits and case pairs, cache eviction, threads pre-empted at every line, and fresh interpreters.
+       This time the change must need one of the following to manifest - pick the two that suit this property:
+       - TWO COOPERATING EDITS at different sites (two functions, or parser + matcher, or __init__ + css_types) that
+         each look harmless - even correct - when read alone and that only together bend the behaviour (e.g. one
+         site starts to rely on an invariant the other quietly stops maintaining; a value is normalised in one
+         place and compared un-normalised in the other; a flag is set in one branch and consumed in another);
+       - a MULTI-STEP SEQUENCE of public calls on the same objects: the third or later call in a particular order
+         (e.g. match then closest then select on one compiled object; compile with flags, then without, then with
+         again; purge between two uses of a kept compiled object; the same element asked through two different
+         compiled objects that share sub-structures through the parser's caches; a tree edited BETWEEN two calls
+         in a way that invalidates something remembered);
+       - a FAULT AT A PARTICULAR POINT: an exception raised half way (a SelectorSyntaxError in the second
+         alternative, a RecursionError in a deep selector, a KeyboardInterrupt or a caller's iterator raising during
+         iselect/filter, a generator closed early) after which the NEXT, perfectly ordinary call misbehaves;
+       - an input class at the rim of the specification this property talks about: read the CSS Selectors 4 /
+         HTML living standard rule that this property encodes and bend the least-known clause of it (which elements
+         are exempt, which attribute wins, where a walk stops, what happens with zero / one / the last item,
+         what is ASCII-case-insensitive and what is not, what is compared by code point and what by token).
+       Each call path must stay self-consistent (the entry points must still agree with each other), so that only a
+       monitor that knows the *meaning* - or one that watches state across calls - can notice.''']
 
 TMPL = '''You are helping test a verification tool by playing the role of a careless-but-plausible developer.
 
